@@ -275,6 +275,24 @@ def materialise(env, roots):
     return mod, tys, src
 
 
+def subdescs(d, acc):
+    """every sub-description of d (d included)"""
+    acc.append(d)
+    k = d[0]
+    if k == "seq":
+        subdescs(d[3], acc)
+    elif k == "map":
+        subdescs(d[3], acc); subdescs(d[4], acc)
+    elif k in ("tuple", "union"):
+        for t in d[2]:
+            subdescs(t, acc)
+    elif k in ("newtype", "alias"):
+        subdescs(d[2], acc)
+    elif k in ("final", "classvar"):
+        subdescs(d[1], acc)
+    return acc
+
+
 # ----------------------------------------------------------------------------------
 # Coq emission of ty / env
 # ----------------------------------------------------------------------------------
@@ -300,6 +318,73 @@ class Registry:
                 i = len(self.leaves)
                 self.leaves[n] = i
                 self.leaf_py[i] = getattr(mod, n)
+
+    # ---- python annotation -> description (for nodes of graph.static_order) ----
+    def build_reverse(self, roots):
+        import typing
+        self.rev = []
+        ds = []
+        for r in roots:
+            subdescs(r, ds)
+        for n, d in self.env["defs"].items():
+            if d[0] == "class":
+                ds.append(("name", n))
+                for _, t, _ in d[3]:
+                    subdescs(t, ds)
+            elif d[0] == "alias":
+                ds.append(("name", n))
+                subdescs(d[2] if isinstance(d[1], str) else d[1], ds)
+        for k in LEAVES:
+            ds.append(("leaf", k))
+        for n, d in self.env["defs"].items():
+            if d[0] in ("enum", "literal"):
+                ds.append(("leaf", n))
+        ds.append(("none",))
+        seen = set()
+        for d in ds:
+            key = repr(d)
+            if key in seen or d[0] == "ref":
+                continue
+            seen.add(key)
+            try:
+                py = eval(src_ty(d, self.env), self.mod.__dict__)
+            except Exception:
+                continue
+            if d == ("none",):
+                py = type(None)
+            self.rev.append((py, d))
+
+    def desc_of(self, py):
+        import typing
+        if isinstance(py, typing.ForwardRef):
+            arg = py.__forward_arg__
+            if arg.startswith("N") and arg[1:].isdigit():
+                return ("ref", int(arg[1:]), "fwd")
+            for key, i in self.leaves.items():
+                if getattr(self.leaf_py[i], "__name__", None) == arg:
+                    return ("lref", key)
+            for cand, d in self.rev:
+                if d[0] in ("newtype", "alias", "aliasstr") and arg == {"newtype": "NT", "alias": "AL", "aliasstr": "AS"}[d[0]] + str(d[1]):
+                    return ("wref", d)
+            return None
+        if py is None:
+            return ("none",)
+        for cand, d in self.rev:
+            if cand is py:
+                return d
+        for cand, d in self.rev:
+            try:
+                if type(cand) is type(py) and cand == py and repr(cand) == repr(py):
+                    return d
+            except Exception:
+                pass
+        for cand, d in self.rev:
+            try:
+                if cand == py:
+                    return d
+            except Exception:
+                pass
+        return None
 
     def fid(self, name: str) -> int:
         if name not in self.fields:
@@ -368,6 +453,10 @@ class Registry:
             return f"(TName {coq_nat(d[1])})"
         if k == "ref":
             return f"(TRef {coq_nat(d[1])})"
+        if k == "wref":
+            return f"(TRefTo {self.emit_ty(d[1])})"
+        if k == "lref":
+            return f"(TRefLeaf {coq_nat(self.leaves[d[1]])})"
         if k == "newtype":
             return f"(TNewType {coq_nat(d[1])} {self.emit_ty(d[2])})"
         if k == "alias":
